@@ -1027,6 +1027,74 @@ def main():
         out.append("(* open_mla_file: %s *)" % e)
         out.append("Definition CLI_key_policy_untranslatable : unit := tt.")
     out.append("")
+    # ---- work package cli17: order of "input archive opened" (1) / "output created" (2) events per command
+    out.append("(* mlar/src/main.rs: per command function, in source order, 1 = open_mla_file / open_failsafe_mla_file,")
+    out.append("   2 = an output is created (writer_from_matches, destination_from_output_argument, fs::create_dir, create_file) *)")
+    try:
+        mrs = read("mlar/src/main.rs")
+        nc = lambda s: re.sub(r"//[^\n]*", "", s)
+        # the helpers must be what the event names say they are
+        wfm = nc(find_fn_body(mrs, "writer_from_matches")[0])
+        dfo = nc(find_fn_body(mrs, "destination_from_output_argument")[0])
+        mcf = re.search(r"\nfn create_file<.*?\n\}\n", mrs, re.S)   # generic bounds nest <>: find_fn_body does not apply
+        if not mcf:
+            raise ParseError("create_file not found")
+        crf = nc(mcf.group(0))
+        omf = nc(find_fn_body(mrs, "open_mla_file")[0])
+        ofs = nc(find_fn_body(mrs, "open_failsafe_mla_file")[0])
+        if not ("destination_from_output_argument(output)?" in wfm and wfm.find("destination_from_output_argument") < wfm.find("ArchiveWriter::from_config")):
+            raise ParseError("writer_from_matches: output creation not found before ArchiveWriter::from_config")
+        if "File::create(path)?" not in dfo or 'as_os_str() == "-"' not in dfo:
+            raise ParseError("destination_from_output_argument: unexpected shape")
+        if "File::create(&extracted_path)" not in crf:
+            raise ParseError("create_file: File::create not found")
+        if not ("File::open(path)?" in omf and "ArchiveReader::from_config(file, config)" in omf):
+            raise ParseError("open_mla_file: unexpected shape")
+        if not ("File::open(path)?" in ofs and "ArchiveFailSafeReader::from_config(file, config)" in ofs):
+            raise ParseError("open_failsafe_mla_file: unexpected shape")
+        # open_failsafe_mla_file (repair 9ea79db): header read, then the key-policy test returning
+        # PrivateKeyProvidedButNotUsed, then rewind, and only then ArchiveFailSafeReader::from_config
+        r2 = re.search(r"if\s+config\.layers_enabled\.contains\(Layers::ENCRYPT\)\s*&&\s*!header\.config\.layers_enabled\.contains\(Layers::ENCRYPT\)\s*\{[^}]*return\s+Err\(MlarError::PrivateKeyProvidedButNotUsed\)\s*;\s*\}", ofs, re.S)
+        i_hdr, i_pol, i_rew, i_cfg = (ofs.find("ArchiveHeader::from(&mut file)"), ofs.find("PrivateKeyProvidedButNotUsed"),
+                                      ofs.find("file.rewind()?"), ofs.find("ArchiveFailSafeReader::from_config(file, config)"))
+        r3 = 0 <= i_hdr < i_pol < i_rew < i_cfg and "readerconfig_from_matches(matches)" in ofs
+        out.append("Definition CLI_repair_refuses_key_on_unencrypted_before_reading : N := %d." % (1 if (r2 and r3) else 0))
+        # add_file_to_tar (repair 6302e72): the dry run on a scratch builder, with `?`, before the real append_data
+        aft = nc(find_fn_body(mrs, "add_file_to_tar")[0])
+        i_dry = aft.find("Builder::new(io::sink()).append_data(&mut header.clone(), &filename, io::empty())?;")
+        i_real = aft.find("tar_file.append_data(&mut header, &filename, sub_file.data)")
+        out.append("Definition CLI_to_tar_dry_run_before_append : N := %d." % (1 if 0 <= i_dry < i_real else 0))
+        toks = [(r"\bopen_mla_file\(", 1), (r"\bopen_failsafe_mla_file\(", 1), (r"\bwriter_from_matches\(", 2),
+                (r"\bdestination_from_output_argument\(", 2), (r"\bfs::create_dir\(", 2), (r"\bcreate_file\(", 2),
+                (r"\bFile::create\(", 2)]
+        rows = []
+        for fn in ("create", "list", "extract", "cat", "to_tar", "repair", "convert"):
+            fb = find_fn_body(mrs, fn)
+            if fb is None:
+                raise ParseError("command function %s not found" % fn)
+            body = nc(fb[0])
+            ev = sorted((m.start(), code) for pat, code in toks for m in re.finditer(pat, body))
+            rows.append((fn, [c for _, c in ev]))
+        out.append("Definition CLI_EVENTS : list (list N * list N) := [%s]." % "; ".join(
+            "([%s], [%s])" % ("; ".join(str(b) for b in fn.encode()), "; ".join(str(c) for c in ev)) for fn, ev in rows))
+        # cat (non-glob arm): a name that is not found is reported and the loop goes on, no error returned
+        catb = nc(find_fn_body(mrs, "cat")[0])
+        k4 = re.search(r"Ok\(None\)\s*=>\s*\{\s*eprintln!\(\" \[!\] File not found: [^;]*;\s*\}", catb)
+        out.append("Definition CLI_cat_missing_name_continues : N := %d." % (1 if k4 else 0))
+        # to_tar: an add_file_to_tar error is reported and swallowed; the function ends with Ok(())
+        ttb = nc(find_fn_body(mrs, "to_tar")[0])
+        k5 = re.search(r"if let Err\(err\) = add_file_to_tar\(&mut tar_file, sub_file\)\s*\{\s*eprintln!\([^;]*;\s*\}\s*\}\s*Ok\(\(\)\)\s*$", ttb.strip())
+        out.append("Definition CLI_to_tar_swallows_add_errors : N := %d." % (1 if k5 else 0))
+        # tar crate version pinned by Cargo.lock (Tar.v models 0.4.44)
+        lock = read("Cargo.lock")
+        mt = re.search(r'name = "tar"\s*\nversion = "(\d+)\.(\d+)\.(\d+)"', lock)
+        if not mt:
+            raise ParseError("tar crate not found in Cargo.lock")
+        out.append("Definition TAR_CRATE_VERSION : list N := [%s; %s; %s]." % mt.groups())
+    except Exception as e:  # fail closed
+        out.append("(* cli17 events: %s *)" % e)
+        out.append("Definition CLI_events_untranslatable : unit := tt.")
+    out.append("")
 
     # ---- C bindings: MLAStatus discriminants and the null checks of every entry point (C20)
     out.append("(* bindings/C/src/lib.rs *)")
